@@ -25,6 +25,9 @@ typedef struct istream_xfrm_t {
 	sqfs_istream_t *wrapped;
 	xfrm_stream_t *xfrm;
 
+	/* input was consumed since the last end of a compressed stream */
+	bool mid_stream;
+
 	size_t buffer_offset;
 	size_t buffer_used;
 	sqfs_u8 uncompressed[BUFSZ];
@@ -66,6 +69,19 @@ static int precache(sqfs_istream_t *base)
 
 		if (ret == XFRM_STREAM_ERROR)
 			return SQFS_ERROR_COMPRESSOR;
+
+		if (ret == XFRM_STREAM_END) {
+			xfrm->mid_stream = false;
+		} else if (in_off > 0) {
+			xfrm->mid_stream = true;
+		}
+
+		/* the input ended, the decoder has nothing more to give, but
+		   the compressed stream was not finished: it is truncated */
+		if (mode == XFRM_STREAM_FLUSH_FULL && xfrm->mid_stream &&
+		    out_off == xfrm->buffer_used) {
+			return SQFS_ERROR_CORRUPTED;
+		}
 
 		xfrm->buffer_used = out_off;
 		xfrm->wrapped->advance_buffer(xfrm->wrapped, in_off);
